@@ -87,7 +87,7 @@ func runC01(r *core.Run, tier string) {
 		r.Inconclusive("fc does not build: " + err.Error())
 		return
 	}
-	n := 600
+	n := 1000
 	if tier == "thorough" {
 		n = 12000
 	}
